@@ -684,7 +684,12 @@ impl C18 {
         for i in 0..nw {
             let name = format!("P{:02}_E{:02}_PE{:03}", 1 + rng.usize(4), 1 + rng.usize(9), i);
             let (a, u, b) = (rng.dec(1.0, 200.0, 2), rng.dec(0.1, 4.0, 2), if rng.chance(0.7) { 1.0 } else { 0.0 });
-            let (wt, o, c) = (["Fachada", "Suelo", "Cubierta", "Adiabatico"][rng.usize(4)], orients[rng.usize(9)], crate::gen::bdl::db_name(rng, "C"));
+            let (wt, o, mut c) = (["Fachada", "Suelo", "Cubierta", "Adiabatico"][rng.usize(4)], orients[rng.usize(9)], crate::gen::bdl::db_name(rng, "C"));
+            // construction names are free text: commas (also between digits) occur in them
+            if rng.chance(0.3) {
+                c = format!("{}, {}", c, *rng.pick(&["bajo emisivo 0,03", "con cámara", "4/16/4", "e=0,24 m"]));
+                obs.count("kyg:comma-in-text-column");
+            }
             if rng.chance(0.5) {
                 let wn = format!("{}_V", name);
                 let (wa, wu, ff, g, inf) = (rng.dec(0.5, 20.0, 2), rng.dec(0.8, 5.7, 2), rng.dec(0.0, 60.0, 2), rng.dec(0.1, 0.9, 2), rng.dec(3.0, 100.0, 2));
@@ -700,7 +705,7 @@ impl C18 {
             walls.push((name, a, u, b, wt, o, c));
         }
         let mut tbs = vec![];
-        for n in ["FRENTE_FORJADO", "UNION_CUBIERTA", "PILAR"] {
+        for n in ["FRENTE_FORJADO", "UNION_CUBIERTA", "PILAR", "FRENTE_FORJADO, planta 1"] {
             if rng.chance(0.7) {
                 let (l, psi) = (rng.dec(0.0, 300.0, 2), rng.dec(0.0, 1.0, 3));
                 lines.push(if new_layout { format!("PPTT;{};{};{};SDINT", dec(l, 2), dec(psi, 3), n) } else { format!("PPTT;{};{};{}", dec(l, 2), dec(psi, 3), n) });
@@ -897,6 +902,7 @@ impl Property for C18 {
         }
         v.push(("attributes_compared".into(), 50_000));
         v.push(("typed_spaces".into(), 500));
+        v.push(("kyg:comma-in-text-column".into(), 50));
         for a in ["SPACE-CONDITIONS", "SYSTEM-CONDITIONS", "ABSORPTANCE", "OVERHANG-A", "LEFT-FIN-A", "RIGHT-FIN-A", "COEFF"] {
             v.push((format!("legacy-absent:{}", a), 30));
         }
